@@ -64,6 +64,7 @@ type tdRec struct {
 
 func scenario(c *vk.C, rng *rand.Rand, k int) {
 	cfg := rtp.GenCfg(rng, rtp.GenOpts{MaxCtrls: 3, MaxQ: 2, CachedProb: 0.85})
+	cfg.MergeBatches = k%2 == 1 // re-batched aggregated events (bootstrap batch continuing with live events, ...)
 
 	var (
 		w    *rtp.World
